@@ -159,6 +159,26 @@ def M8(dur=0.5):
     )
 
 
+def M8R(dur=0.5):
+    """residual junction inside a duration group: v1 -> jv, jv -> v2 (proportion), jv -> v3 (residual), all flushed by the same timed parameter"""
+    return dict(
+        name="M8R",
+        comps=[dict(name="a", default=100), dict(name="v1", default=40), dict(name="jv", junction="y"), dict(name="v2", default=10), dict(name="v3", default=5), dict(name="r", default=0)],
+        pars=[dict(name="vac", format="probability", default=0.3), dict(name="dur", format="duration", default=dur, timed="y"), dict(name="viaj", format="probability", default=0.2), dict(name="q2", format="proportion", default=0.6), dict(name="back", format="rate", default=0.1)],
+        transitions={("a", "v1"): "vac", ("v1", "r"): "dur", ("v2", "r"): "dur", ("v3", "r"): "dur", ("v1", "jv"): "viaj", ("jv", "v2"): "q2", ("jv", "v3"): ">", ("r", "a"): "back"},
+    )
+
+
+def M8B(dur=0.5):
+    """two different duration groups with an ordinary transition from one into the other (elapsed time must restart)"""
+    return dict(
+        name="M8B",
+        comps=[dict(name="a", default=100), dict(name="v", default=40), dict(name="w", default=10), dict(name="r", default=0)],
+        pars=[dict(name="vac", format="probability", default=0.3), dict(name="dur", format="duration", default=dur, timed="y"), dict(name="dur2", format="duration", default=0.75, timed="y"), dict(name="prog", format="probability", default=0.4), dict(name="back", format="rate", default=0.1)],
+        transitions={("a", "v"): "vac", ("v", "r"): "dur", ("w", "r"): "dur2", ("v", "w"): "prog", ("r", "a"): "back"},
+    )
+
+
 def M10():
     """function parameters: chain and diamond of dependencies on compartments / characteristics / t, with limits"""
     return dict(
@@ -194,4 +214,4 @@ def M12():
     )
 
 
-CATALOGUE = dict(M1=M1, M2=M2, M4=M4, M5=M5, M5R=M5R, M6=M6, M7=M7, M8=M8, M10=M10, M12=M12)
+CATALOGUE = dict(M1=M1, M2=M2, M4=M4, M5=M5, M5R=M5R, M6=M6, M7=M7, M8=M8, M8R=M8R, M8B=M8B, M10=M10, M12=M12)
